@@ -519,8 +519,14 @@ def check_returns(r, item):
     from msdm.core.mdp.policy import Policy
     for L in range(1, 5):
         for rs in product([-1, 0, 2], repeat=L):
-            for g in (0.0, 0.5, 0.9, 1.0):
-                got = Policy.calc_returns(list(rs), g)
+            for g in (0.0, 0.5, 0.9, 1.0, 1, 0, np.float32(0.5), np.int64(1)):       # also discounts written as integers / numpy scalars
+                try:
+                    got = Policy.calc_returns(list(rs), g)
+                except Exception as e:
+                    r.count('transitions')
+                    r.violation('calc_returns_exception', {'rewards': rs, 'gamma': repr(g), 'error': repr(e)[:200]}, item)
+                    continue
+                g = float(g)
                 want = [0.0] * L
                 acc = 0.0
                 for k in range(L - 1, -1, -1):
